@@ -7,8 +7,8 @@
    against the backend that replays these results ([script_step]); the encoding/json, sha256
    and http.Redirect oracles are the values the harness computed with the real libraries. *)
 From Coq Require Import String.
-From OCI Require Export Base.Outcome Model.Server Model.ServerSpec Model.ServerStream.
-From OCI Require Import Proofs.Request Proofs.Server Proofs.ServerObs Proofs.ServerStream.
+From OCI Require Export Base.Outcome Model.Server Model.ServerSpec Model.ServerStream Model.ServerSettled.
+From OCI Require Import Proofs.Request Proofs.Server Proofs.ServerObs Proofs.ServerStream Proofs.ServerSettled.
 
 (* ---------------------------------------------------------------- case *)
 
@@ -137,7 +137,10 @@ Definition model_agrees (c : case) : bool :=
 
 (* The property, read off its statement for one observed exchange.  [spec_ok] is in
    Model/ServerSpec.v; it mentions only the options, the trace and the response - never the
-   handlers.  A backend outside the property's quantifier (see [wb_trace]) is not judged. *)
+   handlers.  A backend outside the property's quantifier (see [wb_trace]) is not judged.
+   [settled_ok] (Model/ServerSettled.v) says which reports of a BlobWriter the Location and the
+   Range of a 202 / 204 are built from: those made while the writer was settled (before any
+   Write, or after the Close that followed the last Write), as BlobWriter.ID documents. *)
 Definition obs_ok (c : case) : bool :=
   match c with
   | CServe o req dg subj ob =>
@@ -147,6 +150,7 @@ Definition obs_ok (c : case) : bool :=
          | OPanic _ => false
          | OResp st hdrs body json tr =>
              spec_ok L (opts_of o) req tr (mkresp st hdrs body json)
+             && settled_ok tr (mkresp st hdrs body json)
          end
   (* a reader failed part-way (or its Close failed): everything above, on the trace that says
      what the reader delivered, and [stream_ok]: a success status that is out is not followed by an
@@ -158,6 +162,7 @@ Definition obs_ok (c : case) : bool :=
          | OPanic _ => false
          | OResp st hdrs body json tr =>
              spec_ok L (opts_of o) req tr (mkresp st hdrs body json)
+             && settled_ok tr (mkresp st hdrs body json)
              && stream_ok tr rs (mkresp st hdrs body json)
          end
   | CParse _ _ _ res cns =>
@@ -197,6 +202,7 @@ Lemma serve_agrees_sound o req dg subj ob :
   | OPanic _ => False
   | OResp st hdrs bd js tr =>
       spec_ok L (opts_of o) req tr (mkresp st hdrs bd js) = true
+      /\ settled_ok tr (mkresp st hdrs bd js) = true
       /\ forall data, last_of reader_data tr None = Some data -> (200 <= st < 300)%Z -> bd = data /\ js = None
   end.
 Proof.
@@ -209,6 +215,8 @@ Proof.
                 (list bres) script_step (opts_of o) req (script_of (obs_trace ob))) as HC.
   pose proof (handle_streams L (fun _ => dg) (fun _ => subj) (fun _ => body) (fun _ _ => (loc, body))
                 (list bres) script_step (opts_of o) req (script_of (obs_trace ob))) as HS.
+  pose proof (handle_reports_settled L (fun _ => dg) (fun _ => subj) (fun _ => body) (fun _ _ => (loc, body))
+                (list bres) script_step (opts_of o) req (script_of (obs_trace ob))) as HT.
   destruct (handle _ _ _ _ _ _ _ _ _ _) as [[b' tr] r].
   destruct r as [resp| | |]; destruct ob as [tr'|st hdrs bd js tr']; try discriminate; cbn [obs_trace].
   - intros H. apply andb_true_iff in H as [H H5]. apply andb_true_iff in H as [H H4].
@@ -216,8 +224,10 @@ Proof.
     apply trace_eqb_eq in H5. subst tr'. intros W1 W2.
     destruct (HC W1 W2) as (resp' & E & S). inversion E. subst resp'.
     apply Z.eqb_eq in H1. apply beqb_eq in H3. destruct resp as [rs rh rb rj].
-    cbn [p_status p_hdrs p_body p_json] in *. subst. split.
-    + eapply spec_ok_ext; eauto.
+    cbn [p_status p_hdrs p_body p_json] in *. subst.
+    assert (SP : spec_ok L (opts_of o) req tr (mkresp st hdrs bd js) = true) by (eapply spec_ok_ext; eauto).
+    split; [exact SP|]. split.
+    + eapply settled_ok_of_spec; eauto.
     + intros data LR ST. destruct (HS _ data eq_refl LR ST) as [B1 B2]. cbn [p_body p_json] in B1, B2.
       subst. split; [reflexivity|]. destruct js; [discriminate | reflexivity].
   - intros H. apply trace_eqb_eq in H. subst tr'. intros W1 W2.
@@ -231,15 +241,16 @@ Proof.
     intros H. pose proof (serve_agrees_sound o req dg subj ob H) as S. cbv zeta in S.
     destruct (wb_trace (obs_trace ob) && wb_locs (o_locs (opts_of o)) (obs_trace ob)) eqn:W; [|reflexivity].
     apply andb_true_iff in W as [W1 W2]. specialize (S W1 W2).
-    destruct ob as [tr'|st hdrs bd js tr']; [contradiction|]. cbn [negb orb]. apply S.
+    destruct ob as [tr'|st hdrs bd js tr']; [contradiction|]. cbn [negb orb].
+    destruct S as (S1 & S2 & _). now rewrite S1, S2.
   - (* a served request with a reader that failed *)
     intros H. apply andb_true_iff in H as [H _].
     pose proof (serve_agrees_sound o req dg subj ob H) as S. cbv zeta in S.
     destruct (wb_trace (obs_trace ob) && wb_locs (o_locs (opts_of o)) (obs_trace ob) && wb_streams rs) eqn:W; [|reflexivity].
     apply andb_true_iff in W as [W _]. apply andb_true_iff in W as [W1 W2]. specialize (S W1 W2).
     destruct ob as [tr'|st hdrs bd js tr']; [contradiction|]. cbn [negb orb obs_trace] in *.
-    destruct S as [S1 S2]. rewrite S1. cbn [andb].
-    apply stream_ok_of_last. exact S2.
+    destruct S as (S1 & S2 & S3). rewrite S1, S2. cbn [andb].
+    apply stream_ok_of_last. exact S3.
   - (* the router on its own *)
     intros H. apply andb_true_iff in H as [H1 H2].
     pose proof (parse_req_good L m p q) as G.
